@@ -468,6 +468,8 @@ class C17(Engine):
         # a command with an explicit numeric range a-b has no business far outside it: a listing that wrapped at the top
         # of the address space and carries on from 0 looks monotone for four thousand million lines
         line = console[pos - 1] if plan["mode"] == "interactive" and 0 < pos <= len(console) else ""
+        if plan["mode"] == "-disasm_range" and "-disasm_range" in plan["argv"][:-1]:
+            line = "disasm " + plan["argv"][plan["argv"].index("-disasm_range") + 1]
         mrange = re.match(r"^\s*\w+\s+(0x[0-9a-fA-F]+|\d+)\s*-\s*(0x[0-9a-fA-F]+|\d+)\s*$", line)
         if mrange and addrs:
             ra, rb = int(mrange.group(1), 0), int(mrange.group(2), 0)
